@@ -453,3 +453,30 @@ def r10_3(ctx):
                 elif req:
                     bad = f"a controller-reset request is issued: {[e.args[0] for e in req]}"
                 ctx.require(not bad, f"chain:{name.split('(')[0]}:{'request' if expect else 'silent'}", f"{key}: {bad}", func=None, trace=p.trace(24))
+
+
+@rule("R04.6", ["C04", "C01", "C06"], "T-FUN", floor=9)
+def r04_6(ctx):
+    """The layer between ASH and EZSP is transparent for payloads: Gateway.data_received hands every payload the link accepted (and
+    has already acknowledged) to the application's frame_received exactly once, unchanged, whatever the state of the reset /
+    start-up waiters {none, open, completed} - a payload dropped here has been acknowledged to the NCP and is never sent again."""
+    anchor_attrs(ctx, "Gateway", "_application", "_reset_future", "_startup_reset_future")
+    repo = ctx.repo
+    f = repo.func(f"{UART}:Gateway.data_received")
+    ctx.fn(f)
+    for rname, rtag, rdone in FSTATES:
+        for sname, stag, sdone in FSTATES:
+            done = ({"rf"} if rdone else set()) | ({"sf"} if sdone else set())
+            px = PX(repo, models=fut_models(done), inline=same_class())
+
+            def setup():
+                return (self_obj(gw_cls(ctx), {"_application": Obj(TypeRef("EZSP"), {}, tag="app"), "_reset_future": fut("rf") if rtag else None,
+                                               "_startup_reset_future": fut("sf") if stag else None, "_transport": Obj(TypeRef("AshProtocol"), {}, tag="ash")}),
+                        {"data": Sym("payload")})
+
+            for p in px.explore(f, setup):
+                ctx.paths += 1
+                up = [e for e in p.events if e.kind == "call" and e.what.endswith("frame_received")]
+                ok = p.terminal == "return" and len(up) == 1 and up[0].args[:1] == (Sym("payload"),) and up[0].callee == "app.frame_received"
+                ctx.require(ok, f"gateway-transparent:reset={rname},startup={sname}", f"reset waiter {rname}, start-up waiter {sname}: Gateway.data_received(payload) "
+                            f"{p.terminal}s after {[e.brief() for e in up] or 'no upward call'}; the payload must reach the application exactly once", func=f, trace=p.trace(10))
